@@ -36,6 +36,11 @@ pub trait Compiler {
 
     fn compile(&mut self, tir: &AnyTir) -> Result<CompiledTx, Error>;
     fn reduce_op(&self, op: Self::CompilerOp) -> Result<Self::Expression, crate::reduce::Error>;
+
+    /// Forgets whatever the instance remembers from transactions it compiled before. A
+    /// resolution calls this first, so that its outcome does not depend on the history of
+    /// the instance.
+    fn reset(&mut self) {}
 }
 
 impl<C> Visitor for C
